@@ -401,11 +401,15 @@ def suite_ro_mutators(tier, seed):
                         {"k": "ab", "n": 8, "o": False}, {"k": "at", "s": 8, "a": 8, "o": False},
                         {"k": "aa", "s": 8, "a": 8, "n": 4, "o": False}, {"k": "discard"}, {"k": "ab", "n": 8, "o": True}]:
                 for shape in [[AB(16)], [AB(40), AB(24), {"k": "drop", "h": 1}]]:
-                    cfg = {"arenas": [[flavor, "file"]], "cap": 200, "reserved": rng.choice([0, 5]), "kind": rng.choice(["opt", "pes"]),
-                           "minseg": 8, "unify": True, "maxalign": 8, "magic": 3}
-                    ops = list(shape) + [{"k": "reopen", "variant": variant, "cap": 0, "flush": False, "create": False}, mut,
-                                         {"k": "reopen", "variant": "map_mut", "cap": 0, "flush": False, "create": False}, AB(8)]
-                    drivers.append({"id": "ro:%s:%s:%s:%d" % (flavor, variant, mut["k"], len(shape)), "cfg": cfg, "ops": ops})
+                    # every free-list kind (the read-only guards sit next to per-kind dispatch) x with / without a prefix
+                    for kind in ["none", "opt", "pes"]:
+                        for reserved in [0, 5]:
+                            cfg = {"arenas": [[flavor, "file"]], "cap": 200, "reserved": reserved, "kind": kind,
+                                   "minseg": 8, "unify": True, "maxalign": 8, "magic": 3}
+                            ops = list(shape) + [{"k": "reopen", "variant": variant, "cap": 0, "flush": False, "create": False}, mut,
+                                                 {"k": "reopen", "variant": "map_mut", "cap": 0, "flush": False, "create": False}, AB(8)]
+                            drivers.append({"id": "ro:%s:%s:%s:%d:%s:%d" % (flavor, variant, mut["k"], len(shape), kind, reserved),
+                                            "cfg": cfg, "ops": ops})
     return drivers
 
 
